@@ -413,6 +413,45 @@ TIES = {
 }
 
 
+def run_dist_upgrader(rep, rng, n, skel: Path, mirror: Path):
+    """Standard repository with mirror_dist_upgrader: the extra dist-upgrader paths must stay below the
+    repository root whatever the (attacker-controlled) Release file says in ANY of its fields."""
+    from apt_mirror.download import URL
+    from apt_mirror.repository import ByHash, Codename, Repository
+    found = False
+    hostile = ["../../../../../../outside/pwned", "/abs/pwned", "..", "a/../../../x", "stable/../../..", "jammy"]
+    for i in range(n):
+        cn = rng.choice(["jammy", "jammy-updates", "noble"])
+        repo = Repository(
+            url=URL.from_string("http://h/repo"), clean=False, skip_clean=set(), http2_disable=False,
+            mirror_dist_upgrader=True, mirror_path=None, ignore_errors=set(),
+            codenames=Repository.Codenames([(cn, Codename(ByHash("yes"), cn, {"main": Codename.Component("main", False, ["amd64"])}))]))
+        root = skel / repo.get_mirror_path(False)
+        rel = root / "dists" / cn
+        rel.mkdir(parents=True, exist_ok=True)
+        fields = {k: rng.choice(hostile) for k in rng.sample(["Codename", "Suite", "Origin", "Label", "Version", "Components"], rng.randint(1, 4))}
+        text = "".join(f"{k}: {v}\n" for k, v in fields.items()) + "SHA256:\n " + "0" * 64 + " 10 main/binary-amd64/Packages\n"
+        for name in ("InRelease", "Release"):
+            (rel / name).write_text(text)
+        try:
+            files = repo.get_metadata_files(skel, False, set())
+        except Exception as e:  # noqa: BLE001
+            files = []
+        touched = sorted({str(p) for f in files for v in f.compression_variants.values() for p in v.get_all_paths()})
+        rep.case(("dist_upgrader", cn, tuple(sorted(fields)), len(touched) > 5), sample={"codename": cn, "fields": fields, "paths": len(touched)})
+        rep.count("dist_upgrader")
+        for q in touched:
+            if not under(root, q) or not under(mirror / "h" / "repo", q):
+                found = True
+                rep.violation(f"dist-upgrader/metadata path {q!r} derived from a Release with fields {fields} leaves the repository root",
+                              {"kind": "oracle", "tie": "dist_upgrader", "case": {"codename": cn, "fields": fields}},
+                              tags={"oracle": "confined_dist_upgrader"})
+                break
+        for name in ("InRelease", "Release"):
+            (rel / name).unlink()
+    return found
+
+
 def run(rep: C.Report):
     rep.rule = ("hostile path strings from an attacker grammar (.. runs, absolute, re-entry through the "
                 "sandbox's own directory names, suffix tricks) fed to the real guard/parsers; a case is "
@@ -434,6 +473,7 @@ def run(rep: C.Report):
             found |= f
             for k in out:
                 all_out[k].extend(out[k])
+        found |= run_dist_upgrader(rep, random.Random(rep.seed + 606), 40 if rep.tier == "quick" else 1500, skel, mirror)
         header = HEADER + COQ_DEFS
         for tie, (fn, eqb) in TIES.items():
             cs = all_out[tie]
